@@ -35,7 +35,7 @@ GDB_WORLD = ('C09', 'C10', 'C15')
 
 
 def load_prop(pid):
-    if pid.upper() in GDB_WORLD or os.environ.get('VERIF_WORLD') == 'gdb':
+    if os.environ.get('VERIF_WORLD') != 'log' and (pid.upper() in GDB_WORLD or os.environ.get('VERIF_WORLD') == 'gdb'):
         # the fake `gdb` module must be importable before the tool is (core.util.check_gdb())
         fake = os.path.join(VERIF, 'sim', 'fakegdb')
         if fake not in sys.path:
@@ -361,6 +361,10 @@ def check_main(argv):
     budget = a.budget or (float(os.environ.get('VERIF_BUDGET_S', prop.BUDGET_S.get(tier, 0) if hasattr(prop, 'BUDGET_S') else 0)) if tier == 'thorough' else 0)
     procs = []
     gdb_lanes = tuple(getattr(prop, 'GDB_LANES', ()))      # lanes of a log-world property that run its GDB-world variant
+    log_lanes = tuple(getattr(prop, 'LOG_LANES', ()))      # lanes of a GDB-world property that run without the fake gdb module
+
+    def world_of(lane):
+        return 'gdb' if lane in gdb_lanes else ('log' if lane in log_lanes else None)
     # main batch: lane k handled by process k % nproc ... one process per lane keeps hashseed per lane
     for lane in range(LANES):
         extra = ['--tier', tier, '--seed', str(base), '--lane', str(lane), '--lanes', str(LANES)]
@@ -368,7 +372,7 @@ def check_main(argv):
             extra += ['--budget', str(budget)]
         else:
             extra += ['--count', str(count)]
-        procs.append(spawn(pid, extra, lane_hashseed(base, lane), repo, world='gdb' if lane in gdb_lanes else None))
+        procs.append(spawn(pid, extra, lane_hashseed(base, lane), repo, world=world_of(lane)))
     wall = (budget + 900) if budget else getattr(prop, 'QUICK_WALL_S', 1500)
     outs, errors = collect(procs, wall)
     # determinism self-test: first D indices again, same hashseed (exact) and different hashseed (canonical)
@@ -388,7 +392,7 @@ def check_main(argv):
             groups.setdefault(i % LANES, []).append(i)
         for lane, ii in sorted(groups.items()):
             dprocs.append(spawn(pid, ['--tier', tier, '--seed', str(base), '--indices', ','.join(map(str, ii)),
-                                      '--digest-only'], lane_hashseed(base, lane), repo, world='gdb' if lane in gdb_lanes else None))
+                                      '--digest-only'], lane_hashseed(base, lane), repo, world=world_of(lane)))
         ii2 = [i for i in idxs if i % LANES not in gdb_lanes][:D2]
         if ii2:
             dprocs.append(spawn(pid, ['--tier', tier, '--seed', str(base), '--indices', ','.join(map(str, ii2)),
